@@ -81,6 +81,9 @@ func (g *Gen) nlvShape(shape string) vocab.NaturalLanguageValues {
 			out = append(out, vocab.LangRefValue{Ref: t, Value: g.Text()})
 		}
 		return out
+	case "nlv-repeated":
+		return vocab.NaturalLanguageValues{{Ref: vocab.NilLangRef, Value: vocab.Content("first untagged")}, {Ref: vocab.NilLangRef, Value: vocab.Content("second untagged")},
+			{Ref: "en", Value: g.Text()}, {Ref: "en", Value: vocab.Content("another english text")}}
 	case "nlv-mixed":
 		// an untagged text next to tagged ones (a document that gives both the plain term and the Map term)
 		return vocab.NaturalLanguageValues{{Ref: vocab.NilLangRef, Value: g.Text()}, {Ref: "en", Value: g.Text()}, {Ref: "fr", Value: g.Text()}}
@@ -266,6 +269,11 @@ func FieldShapes(t reflect.Type, exact bool) []string {
 		}
 		return append(s, "l2", "l3", "l-empty", "l9", "l33", "l-hostroot")
 	case t == NlvT:
+		if exact {
+			// gob stores the list entry by entry, so several values under one tag (two untagged strings, two "en") are kept;
+			// a JSON language map cannot hold them, hence not in the JSON domain
+			return []string{"nlv1u", "nlv1t", "nlv2", "nlv3", "nlv-empty", "nlv9", "nlv-long-text", "nlv-mixed", "nlv-repeated"}
+		}
 		return []string{"nlv1u", "nlv1t", "nlv2", "nlv3", "nlv-empty", "nlv9", "nlv-long-text", "nlv-mixed"}
 	case t == TimeT:
 		if exact {
@@ -582,6 +590,7 @@ type BareCase struct {
 	Kind     StructKind
 	Field    Field
 	WithType bool
+	Shape    string
 }
 
 func (b BareCase) String() string {
@@ -589,7 +598,7 @@ func (b BareCase) String() string {
 	if b.WithType {
 		t = "typed"
 	}
-	return fmt.Sprintf("bare %s %s with only %s", t, b.Kind.Name, b.Field.Term)
+	return fmt.Sprintf("bare %s %s with only %s=%s", t, b.Kind.Name, b.Field.Term, b.Shape)
 }
 
 func BareCases() []BareCase {
@@ -602,9 +611,18 @@ func BareCases() []BareCase {
 			if f.Name == "ID" || f.Name == "Type" {
 				continue
 			}
-			out = append(out, BareCase{k, f, true})
-			if k.Name == "Object" {
-				out = append(out, BareCase{k, f, false}) // an untyped object decodes as Object
+			shapes := FieldShapes(f.Type, false)
+			if f.Type.Kind() == reflect.Interface || f.Type == IcT {
+				shapes = shapes[:1] // items and lists: one shape; the scalar kinds: every shape (sign, size, zero-adjacent values)
+			}
+			for _, sh := range shapes {
+				if strings.HasSuffix(sh, "-empty") {
+					continue // set-but-empty is "unset" in the normal form: such an object has nothing to say at all
+				}
+				out = append(out, BareCase{k, f, true, sh})
+				if k.Name == "Object" {
+					out = append(out, BareCase{k, f, false, sh}) // an untyped object decodes as Object
+				}
 			}
 		}
 	}
@@ -618,7 +636,7 @@ func (g *Gen) BuildBare(c BareCase, exact bool) (inner vocab.Item, host any) {
 	if c.WithType {
 		v.FieldByName("Type").Set(reflect.ValueOf(vocab.ActivityVocabularyType(c.Kind.SpecificType())))
 	}
-	g.SetShape(v.Field(c.Field.Index), c.Field.Type, FieldShapes(c.Field.Type, exact)[0])
+	g.SetShape(v.Field(c.Field.Index), c.Field.Type, c.Shape)
 	inner = p.(vocab.Item)
 	return inner, &vocab.Activity{ID: g.IRI(), Type: vocab.LikeType, Object: inner, Tag: vocab.ItemCollection{g.IRI(), inner}}
 }
